@@ -1460,6 +1460,18 @@ def check_nonmutating(hist):
                         ("!=", coll != other, ref != other),
                         ("isdisjoint", coll.isdisjoint(other),
                          ref.isdisjoint(other)),
+                        # any iterable is a legal argument (the built-in
+                        # accepts one-shot iterators); non-members first
+                        ("isdisjoint(list)", coll.isdisjoint(
+                            sorted(other, key=lambda o: o in ref)),
+                         ref.isdisjoint(other)),
+                        ("isdisjoint(iter)", coll.isdisjoint(iter(
+                            sorted(other, key=lambda o: o in ref))),
+                         ref.isdisjoint(other)),
+                        ("isdisjoint(gen)", coll.isdisjoint(
+                            o for o in sorted(other,
+                                              key=lambda o: o in ref)),
+                         ref.isdisjoint(other)),
                         ("len", len(coll), len(ref)),
                         ("iter", set(coll) == ref
                          and len(list(coll)) == len(ref), True)]:
